@@ -54,10 +54,17 @@ func Range(c Collection, ids []string, filter *Filter, sort []string, size uint,
 
 	skip := int(num * size)
 
-	if skip >= len(col.col) {
+	if skip < 0 || skip >= len(col.col) {
 		col = sortedResources{}
 	} else {
-		for i := skip; i < len(col.col) && i < skip+int(size); i++ {
+		// The end of the page is computed carefully: a size that does
+		// not fit in an int (or the addition) must not wrap around.
+		end := skip + int(size)
+		if end < skip || end > len(col.col) || size > uint(len(col.col)) {
+			end = len(col.col)
+		}
+
+		for i := skip; i < end; i++ {
 			page = append(page, col.col[i])
 		}
 	}
